@@ -177,6 +177,157 @@ def _c07_case(conc, nmax, preemptions, rerun=False):
     return case
 
 
+RETRY_WF = """
+version: '2.0'
+wf:
+  input:
+    - items
+  output:
+    res: <% $.get(res, none) %>
+  tasks:
+    t:
+      with-items: i in <% $.items %>
+@@CONC@@
+      action: std.echo output=<% $.i %>
+      retry:
+        count: 1
+        delay: 0
+      publish:
+        res: <% task().result %>
+      on-success: after
+    after:
+      action: std.noop
+"""
+
+
+def _c07_retry_case(conc, nmax, preemptions):
+    """with-items + retry (one more iteration) + concurrency: a second pass
+    over the items driven by the retry policy instead of an operator"""
+    def case():
+        from mistral_lib import actions as ml
+        from vt.world import World
+        from vt.explorer import Explorer
+        line = {'none': '', 'literal1': '      concurrency: 1',
+                'literal2': '      concurrency: 2'}[conc]
+        cval = int(conc[-1]) if conc != 'none' else None
+        sig = 'C07.retry:%s' % conc
+        n = choice('n', list(range(1, nmax + 1)))
+        w = World([RETRY_WF.replace('@@CONC@@', line)])
+        with w:
+            ex = Explorer(w, sig, preemptions=preemptions)
+            ex.rerun_allowed = True
+            wid = w.start('wf', {'items': list(range(n))})
+            ex.check_invariants()
+
+            def result_for(ev):
+                tid = ev.payload['exec_ctx'].get('task_execution_id')
+                trow = [t for t in w.rows('TaskExecution')
+                        if t['id'] == tid][0]
+                if trow['name'] != 't':
+                    return ml.Result(data='ok')
+                me = [a for a in w.rows('ActionExecution')
+                      if a['id'] == ev.payload['id']][0]
+                i = (me['runtime_context'] or {}).get('index')
+                k = len([a for a in w.actions(tid)
+                         if (a['runtime_context'] or {}).get('index') == i
+                         and a['id'] != me['id']
+                         and a['state'] != 'RUNNING'])
+                out = ex.outcome('it%d_%d' % (k, i))
+                return ml.Result(data='r%d_%d' % (k, i)) \
+                    if out == 'SUCCESS' else ml.Result(error='boom')
+            ex.result_for = result_for
+            info = {'n': n, 'concurrency': cval}
+
+            def inv():
+                t = w.task('t', wid)
+                if t is None:
+                    return
+                acts = w.actions(t['id'])
+                running = [a for a in acts if a['state'] == 'RUNNING']
+                if cval:
+                    check(len(running) <= cval,
+                          'more-items-running-than-concurrency',
+                          dict(info, signature=sig + ':concurrency',
+                               running=len(running), trace=ex.trace[-15:]))
+                live = {}
+                for a in acts:
+                    i = (a['runtime_context'] or {}).get('index')
+                    if a['state'] == 'RUNNING' or a['accepted']:
+                        live[i] = live.get(i, 0) + 1
+                check(all(v == 1 for v in live.values()),
+                      'item-running-or-accepted-twice',
+                      dict(info, signature=sig + ':item-twice', live=live,
+                           trace=ex.trace[-15:]))
+                if t['state'] in ('SUCCESS', 'ERROR'):
+                    check(not running, 'task-completed-with-running-items',
+                          dict(info, signature=sig + ':early-complete',
+                               trace=ex.trace[-15:]))
+            real_deliver = ex.deliver
+
+            def deliver(ev, *a, **k):
+                real_deliver(ev, *a, **k)
+                inv()
+            ex.deliver = deliver
+            ex.run()
+            reach('quiescent')
+            t = w.task('t', wid)
+            wf = w.wf_ex(wid)
+            acts = w.actions(t['id'])
+            per = {}
+            for a in acts:
+                i = a['runtime_context']['index']
+                per[i] = per.get(i, 0) + 1
+            fi = dict(info, trace=ex.trace[-30:], outcomes=dict(ex.outcomes),
+                      task=t['state'], wf=wf['state'], per=per)
+            check(wf['state'] in ('SUCCESS', 'ERROR') and
+                  t['state'] == wf['state'],
+                  'run-not-finished', dict(fi, signature=sig + ':final'))
+            first_failed = any(ex.outcomes.get('it0_%d' % i) == 'ERROR'
+                               for i in range(n))
+            if first_failed:
+                reach('retried')
+            check(all(v <= 2 for v in per.values()) and
+                  sorted(per) == list(range(n)),
+                  'item-executed-too-often-or-never',
+                  dict(fi, signature=sig + ':exec-count'))
+            acc = {}
+            for a in acts:
+                if a['accepted']:
+                    acc.setdefault(a['runtime_context']['index'],
+                                   []).append(a)
+            check(sorted(acc) == list(range(n)) and
+                  all(len(v) == 1 for v in acc.values()),
+                  'not-exactly-one-accepted-result-per-item',
+                  dict(fi, signature=sig + ':per-item',
+                       accepted=sorted(acc)))
+            if sorted(acc) == list(range(n)) and \
+                    all(len(v) == 1 for v in acc.values()):
+                states = [acc[i][0]['state'] for i in range(n)]
+                want = 'ERROR' if 'ERROR' in states else 'SUCCESS'
+                check(t['state'] == want, 'with-items-final-state-wrong',
+                      dict(fi, signature=sig + ':final-state', want=want))
+                if want == 'SUCCESS':
+                    exp = [(acc[i][0]['output'] or {}).get('result')
+                           for i in range(n)]
+                    check((t['published'] or {}).get('res') == exp and
+                          w.task('after', wid) is not None,
+                          'results-not-in-item-order',
+                          dict(fi, signature=sig + ':order',
+                               got=(t['published'] or {}).get('res'),
+                               want=exp))
+            if not first_failed:
+                check(all(v == 1 for v in per.values()),
+                      'retried-without-a-failure',
+                      dict(fi, signature=sig + ':spurious-retry'))
+            else:
+                # the task ended ERROR only after the retry was used
+                if t['state'] == 'ERROR':
+                    check(any(v == 2 for v in per.values()),
+                          'failed-without-using-the-retry',
+                          dict(fi, signature=sig + ':no-retry'))
+    return case
+
+
 @obligation(
     'C07.E', engine='symx+world(minidb)',
     functions=['mistral.engine.tasks:WithItemsTask.on_action_complete',
@@ -198,12 +349,13 @@ def _c07_case(conc, nmax, preemptions, rerun=False):
                      'FIFO with <= 1 out-of-order delivery; rerun with '
                      'reset on / off and new outcomes (count <= 2 without '
                      'concurrency and with concurrency 1, <= 4 with '
-                     'concurrency 2)',
+                     'concurrency 2); with-items + retry (count 1) with '
+                     '<= 3 items, per-iteration outcomes symbolic',
             'thorough': 'item count 0..4, <= 2 out-of-order deliveries, '
                         'rerun with count <= 3'},
     stubs=['minidb', 'QueueRPC', 'FakeScheduler', 'FakeExecutor',
            'post-commit queue inline', 'real YAQL'],
-    outside='sub-workflow items; with-items combined with retry (C08); two '
+    outside='sub-workflow items; retry counts above 1; two '
             'completions overlapping inside the named lock',
     timeout=(500, 2400))
 def c07_e(ctx):
@@ -227,6 +379,10 @@ def c07_e(ctx):
                                               rerun=True),
                    needed=['first-run-failed', 'rerun-done'],
                    replay=_strong_partial_rerun)
+    for conc in ('none', 'literal1', 'literal2'):
+        yield Case(conc + '/retry', _c07_retry_case(conc, ctx.pick(3, 4),
+                                                    ctx.pick(0, 1)),
+                   needed=['quiescent', 'retried'])
 
 
 def _strong_partial_rerun(model, v):
